@@ -346,3 +346,168 @@ pub fn lexing_defs() -> BoxedStrategy<DefSpec> {
     ]
     .boxed()
 }
+
+// ---------------------------------------------------------------------------------------------
+// C08: conflict family - tiny alphabet, priorities default or from a tiny range so that ties and
+// shadowed ties are frequent.
+
+pub const TINY_CHARS: &[char] = &['a', 'b', 'c', 'A'];
+pub const TINY_CLASSES: &[&str] = &["[a-c]", "[ab]", "[ac]", "[bc]", "[a-b]", "[^c]", "[aA]", "[a-cA]"];
+
+fn tiny_ast(looks: bool) -> BoxedStrategy<Ast> {
+    let lit = vec(select(TINY_CHARS), 1..=3).prop_map(|cs| Ast::Lit(cs.into_iter().collect()));
+    let class = select(TINY_CLASSES).prop_map(Ast::Class);
+    let leaf = prop_oneof![5 => lit, 3 => class];
+    leaf.prop_recursive(3, 12, 3, move |inner| {
+        let mut opts: Vec<(u32, BoxedStrategy<Ast>)> = vec![
+            (4, vec(inner.clone(), 2..=3).prop_map(Ast::Cat).boxed()),
+            (3, vec(inner.clone(), 2..=3).prop_map(Ast::Alt).boxed()),
+            (4, (inner.clone(), rep_strategy()).prop_map(|(a, r)| Ast::Rep(Box::new(a), r)).boxed()),
+            (1, inner.clone().prop_map(|a| Ast::Group(Box::new(a), "(?i:")).boxed()),
+        ];
+        if looks {
+            opts.push((2, (inner.clone(), select(LOOKS)).prop_map(|(a, l)| Ast::Cat(vec![a, Ast::Look(l)])).boxed()));
+        }
+        proptest::strategy::Union::new_weighted(opts)
+    })
+    .prop_map(|a| if a.nullable() { Ast::Cat(vec![Ast::Lit("a".into()), a]) } else { a })
+    .boxed()
+}
+
+pub fn conflict_defs() -> BoxedStrategy<DefSpec> {
+    let pat = prop_oneof![
+        3 => (vec(select(TINY_CHARS), 1..=3), prop::bool::weighted(0.2)).prop_map(|(k, ic)| {
+            let mut p = PatSpec::token(LitSpec::str(k.into_iter().collect::<String>()));
+            p.ignore_case = ic;
+            p
+        }),
+        5 => (prop::bool::weighted(0.25)).prop_flat_map(tiny_ast).prop_flat_map(|a| (Just(a), prop::bool::weighted(0.15))).prop_map(|(a, ic)| {
+            let mut p = PatSpec::regex(LitSpec::str(a.text()));
+            p.ignore_case = ic;
+            p
+        }),
+    ];
+    let prio = prop::option::weighted(0.5, 1usize..=4);
+    (vec((pat, prio), 2..=6), prop::bool::weighted(0.3), any::<bool>())
+        .prop_map(|(pats, with_skip, utf8)| {
+            let mut skips = vec![];
+            let mut variants = vec![];
+            for (i, (mut p, pr)) in pats.into_iter().enumerate() {
+                p.priority = pr;
+                if with_skip && i == 0 {
+                    p.kind = crate::spec::PatKind::Regex;
+                    if p.lit.text.is_empty() {
+                        continue;
+                    }
+                    // a token literal used as a skip regex must be escaped; keep only plain alnum ones
+                    skips.push(p);
+                } else {
+                    variants.push(vec![p]);
+                }
+            }
+            if variants.is_empty() {
+                variants.push(vec![PatSpec::token(LitSpec::str("c"))]);
+            }
+            DefSpec { utf8, subpatterns: vec![], skips, variants }
+        })
+        .boxed()
+}
+
+// ---------------------------------------------------------------------------------------------
+// C09: single patterns for the priority rule, and literal/regex pairs for the consequence clause.
+
+pub fn priority_patterns() -> BoxedStrategy<PatSpec> {
+    let mk = |utf8, unicode, looks, byte_items, flags| GenCfg { utf8, unicode, looks, byte_items, flags, max_depth: 4 };
+    let ast = prop_oneof![
+        4 => ast_strategy(&mk(true, true, false, false, true)),
+        2 => ast_strategy(&mk(true, true, true, false, true)),
+        2 => ast_strategy(&mk(false, true, true, true, true)),
+    ];
+    prop_oneof![
+        6 => (ast.clone(), prop::bool::weighted(0.15), any::<bool>()).prop_map(|(a, ic, as_bytes)| {
+            let text = a.text();
+            // byte-string form of the same regex when it is ASCII-only text
+            let lit = if as_bytes && text.is_ascii() { LitSpec::bytes(text.as_bytes().to_vec()) } else { LitSpec::str(text) };
+            let mut p = PatSpec::regex(lit);
+            p.ignore_case = ic;
+            p.allow_greedy = true;
+            p
+        }),
+        2 => (vec(select(STR_CHARS), 0..=5), prop::bool::weighted(0.3)).prop_map(|(cs, ic)| {
+            let mut p = PatSpec::token(LitSpec::str(cs.into_iter().collect::<String>()));
+            p.ignore_case = ic;
+            p
+        }),
+        1 => (vec(any::<u8>(), 0..=5), prop::bool::weighted(0.3)).prop_map(|(bs, ic)| {
+            let mut p = PatSpec::token(LitSpec::bytes(bs));
+            p.ignore_case = ic;
+            p
+        }),
+    ]
+    .boxed()
+}
+
+fn generalise_char(c: char) -> BoxedStrategy<Ast> {
+    let mut opts: Vec<&'static str> = vec![".", "(?s:.)", "[^\\n]"];
+    if c.is_ascii_lowercase() {
+        opts.extend(["[a-z]", "\\w", "[a-zA-Z_]", "[^0-9]"]);
+    }
+    if c.is_ascii_digit() {
+        opts.extend(["[0-9]", "\\d", "\\w"]);
+    }
+    if c.is_alphabetic() {
+        opts.push("\\w");
+        opts.push("\\p{L}");
+    }
+    if !c.is_ascii() {
+        opts.push("[^\\x00-\\x7f]");
+    }
+    if c == '\n' {
+        opts = vec!["(?s:.)", "\\s", "[ \\n]"];
+    }
+    if c == ' ' {
+        opts.push("\\s");
+    }
+    let lit = Ast::Lit(c.to_string());
+    let l2 = lit.clone();
+    let l3 = lit.clone();
+    let l4 = lit.clone();
+    prop_oneof![
+        4 => Just(lit),
+        4 => select(opts).prop_map(Ast::Class),
+        1 => Just(Ast::Rep(Box::new(l2), Rep { min: 1, max: None, lazy: false, counted: false })),
+        1 => Just(Ast::Alt(vec![l3, Ast::Lit("x".into())])).prop_map(|a| Ast::Group(Box::new(a), "(?:")),
+        1 => Just(Ast::Rep(Box::new(l4), Rep { min: 1, max: Some(2), lazy: false, counted: true })),
+    ]
+    .boxed()
+}
+
+/// (literal w, regex r built to match w, optional third pattern) - all default priorities.
+pub fn pair_defs() -> BoxedStrategy<DefSpec> {
+    vec(select(STR_CHARS), 1..=4)
+        .prop_flat_map(|cs| {
+            let parts: Vec<BoxedStrategy<Ast>> = cs.iter().map(|&c| generalise_char(c)).collect();
+            let tail = prop_oneof![
+                3 => Just(None),
+                1 => Just(Some(Ast::Rep(Box::new(Ast::Class("[a-z]")), Rep { min: 0, max: None, lazy: false, counted: false }))),
+                1 => Just(Some(Ast::Rep(Box::new(Ast::Lit("ab".into())), Rep { min: 0, max: Some(1), lazy: false, counted: false }))),
+                1 => Just(Some(Ast::Rep(Box::new(Ast::Class("\\d")), Rep { min: 0, max: Some(2), lazy: true, counted: true }))),
+            ];
+            (Just(cs), parts, tail, any::<bool>(), prop::bool::weighted(0.2))
+        })
+        .prop_map(|(cs, parts, tail, utf8_flag, regex_first)| {
+            let w: String = cs.into_iter().collect();
+            let mut v = parts;
+            if let Some(t) = tail {
+                v.push(t);
+            }
+            let r = Ast::Cat(v);
+            let mut rp = PatSpec::regex(LitSpec::str(r.text()));
+            rp.allow_greedy = true;
+            let tp = PatSpec::token(LitSpec::str(w));
+            let variants = if regex_first { vec![vec![rp], vec![tp]] } else { vec![vec![tp], vec![rp]] };
+            let _ = utf8_flag;
+            DefSpec { utf8: true, subpatterns: vec![], skips: vec![], variants }
+        })
+        .boxed()
+}
